@@ -4,7 +4,7 @@ from __future__ import annotations
 import ast
 
 from ..cfg import NORMAL, ALL, walk_local
-from ..facts import (cfg_of, call_name, calls_in, targets_of, guard_atoms,
+from ..facts import (runs_only_when, cfg_of, call_name, calls_in, targets_of, guard_atoms,
                      is_attr, is_name, enclosing, local_assigns, kwarg,
                      const_value, strip_await, resolve_local, names_in)
 from ..loader import txt, AnchorError
@@ -352,9 +352,8 @@ def r84(ctx) -> None:
                               and isinstance(n.stmt.value, (ast.List,
                                                             ast.Tuple))
                               and not n.stmt.value.elts):
-                ok = any(t.kind == 'test' and guard_atoms(t.stmt.test) in
-                         [[(f"{p} == 'INBOX'", True)] for p in params]
-                         and cfg.controlled_by(n, t, 't') for t in cfg.nodes)
+                ok = any(runs_only_when(cfg, n, f"{p} == 'INBOX'", True)
+                         for p in params)
                 R.check(ok, f, n.stmt, f'{f.qualname}: the empty part list '
                         f'(store root) only for the literal INBOX',
                         'the store root is returned for names other than '
